@@ -60,6 +60,11 @@ def o1_content_addressed(steps, cfg, history):
         if post is None: continue
         for rel, o in post.cache.items():
             pfx, hexd, ext = addr_parts(rel)
+            parts = rel.split('/')
+            if not (len(parts) == 5 and parts[0] in ('b3', 'b2', 's2', 's3') and [len(x) for x in parts[1:4]] == [3, 3, 58]
+                    and all(c in '0123456789abcdef' for x in parts[1:4] for c in x) and parts[4].startswith('0.')):
+                out.append((f"step {st['i']} {show_cmd(st['cmd'])}: cache path {rel} is not <b3|b2|s2|s3>/<3 hex>/<3 hex>/<58 hex>/0.<ext>", {'kind': 'address-format'}))
+                continue
             if o['kind'] != 'file':
                 out.append((f"step {st['i']} {show_cmd(st['cmd'])}: cache object {rel} is a {o['kind']}, not a regular file", {'kind': 'object-is-symlink'}))
                 continue
